@@ -81,6 +81,28 @@ void adapter_exec(Ev *ev)
         /* size_t overflow probe: length SIZE_MAX - a1 with a 1-octet source. Must be refused. */
         unsigned char one = 0;
         rc = byte_buffer_add(&bb, &one, (size_t)-1 - (size_t)ev->a[0]);
+    } else if (ev_is(ev, "consumehuge")) {
+        /* size_t overflow probe: request SIZE_MAX - a1 octets into a 1-octet destination. Must be refused. */
+        outn = 1;
+        out = xblock(1);
+        out[0] = 0x55;
+        rc = byte_buffer_consume(&bb, out, (size_t)-1 - (size_t)ev->a[0]);
+        outn = 0;
+    } else if (ev_is(ev, "camhuge")) {
+        /* at most SIZE_MAX - a1 octets: hands out what is there; the destination holds exactly that much */
+        size_t rest = bb.used >= bb.offset ? bb.used - bb.offset : 0;
+        outn = rest;
+        out = rest ? xblock(rest) : xblock0();
+        if (rest) memset(out, 0x55, rest);
+        rc = byte_buffer_consume_at_most(&bb, out, (size_t)-1 - (size_t)ev->a[0]);
+        outn = rc < 0 ? 0 : (size_t)rc;
+        if (outn > rest) outn = rest;
+        project(ev, rc < 0 ? neg1(rc) : rc, 0);
+        obs(ev, -7);
+        for (size_t i = 0; i < outn; i++) obs(ev, out[i]);
+        if (rest) xfree(out); else xfree0(out);
+        free(snap);
+        return;
     } else if (ev_is(ev, "consume")) {
         outn = (size_t)ev->a[0];
         out = xblock(outn);
